@@ -152,6 +152,10 @@ impl NodeSession {
     }
 
     fn new_connection_id() -> u64 {
+        #[cfg(feature = "slawlor_ractor_verif")]
+        if let Some(nonce) = crate::verif::next_connection_nonce() {
+            return nonce;
+        }
         let mut rng = rand::rng();
         loop {
             let connection_id = rng.random();
